@@ -757,12 +757,17 @@ static struct node *shadow_remove(int kind, int at)
 	return x;
 }
 
+/* An update's stores may still sit in the updater's store buffer when it returns: "returned" is not "visible"
+ * on x86-TSO.  The version oracle compares reader traversals with update intervals, so the return stamp must not
+ * be earlier than visibility: MFENCE after the primitive, before the stamp.  (The order of the stores INSIDE a
+ * primitive - what the property is about - is not affected: TSO keeps it, and the fence comes after them.) */
+#define UPD_VISIBLE() __asm__ __volatile__("mfence" ::: "memory")
 #if HAVE_STEPPING
 #define STEP_BEGIN() do { if (step) { u->stp.active = 1; TF_ON(); } } while (0)
-#define STEP_END()   do { if (step) { TF_OFF(); u->stp.active = 0; } } while (0)
+#define STEP_END()   do { if (step) { TF_OFF(); u->stp.active = 0; } UPD_VISIBLE(); } while (0)
 #else
 #define STEP_BEGIN() do { } while (0)
-#define STEP_END()   do { } while (0)
+#define STEP_END()   do { UPD_VISIBLE(); } while (0)
 #endif
 
 /* one update; called with upd_mutex held */
